@@ -4,7 +4,8 @@
 //!
 //! A thread-local byte tape that, when installed, replaces the operating-system randomness
 //! consumed by the few call sites that use `rand::rng()` directly and have no deterministic
-//! twin (`Prio2::shard`, `prio2::client::ClientMemory::new`, `Idpf::gen`). With no tape
+//! twin (`Prio2::shard`, `prio2::client::ClientMemory::new`, `Idpf::gen`, and the
+//! `TypeWithNoise::add_noise_to_agg_share` implementations in `flp::types::dp`). With no tape
 //! installed the wrapped generator is used unchanged.
 
 use rand_core::{utils::next_word_via_fill, Rng, TryRng};
